@@ -1,4 +1,4 @@
-import MosnVerif.Model.Updates
+import MosnVerif.Model.UpdatesSpec
 /-! Helper lemmas for property C12 (core Lean only). -/
 namespace MosnVerif.Model.Updates
 open MosnVerif
@@ -306,17 +306,59 @@ theorem foldl_removeSorted_eq_filter (addrs : List String) (l : List Host) (hs :
     funext h
     by_cases h1 : h.addr = a <;> by_cases h2 : h.addr ∈ r <;> simp [h1, h2]
 
-theorem sortByAddr_perm (l : List Host) : (sortByAddr l).Perm l := List.mergeSort_perm _ _
+theorem insertByAddr_perm (h : Host) (l : List Host) : (insertByAddr h l).Perm (h :: l) := by
+  induction l with
+  | nil => exact List.Perm.refl _
+  | cons x t ih =>
+    unfold insertByAddr
+    split
+    · exact List.Perm.refl _
+    · exact ((List.Perm.cons x ih).trans (List.Perm.swap h x t))
+
+theorem sortByAddr_perm (l : List Host) : (sortByAddr l).Perm l := by
+  induction l with
+  | nil => exact List.Perm.refl _
+  | cons x t ih =>
+    show (insertByAddr x (sortByAddr t)).Perm (x :: t)
+    exact (insertByAddr_perm x _).trans (List.Perm.cons x ih)
+
+theorem insertByAddr_sorted (h : Host) (l : List Host) (hs : l.Pairwise (fun a b => a.addr ≤ b.addr)) :
+    (insertByAddr h l).Pairwise (fun a b => a.addr ≤ b.addr) := by
+  induction l with
+  | nil => simp [insertByAddr]
+  | cons x t ih =>
+    rw [List.pairwise_cons] at hs
+    unfold insertByAddr
+    split
+    · rename_i hle
+      rw [List.pairwise_cons]
+      refine ⟨?_, List.pairwise_cons.mpr hs⟩
+      intro y hy
+      simp only [List.mem_cons] at hy
+      rcases hy with rfl | hy
+      · exact hle
+      · exact String.le_trans hle (hs.1 y hy)
+    · rename_i hnle
+      have hxh : x.addr ≤ h.addr := by
+        rcases String.le_total h.addr x.addr with h' | h'
+        · exact absurd h' hnle
+        · exact h'
+      rw [List.pairwise_cons]
+      refine ⟨?_, ih hs.2⟩
+      intro y hy
+      have := (insertByAddr_perm h t).mem_iff.mp hy
+      simp only [List.mem_cons] at this
+      rcases this with rfl | hy'
+      · exact hxh
+      · exact hs.1 y hy'
+
+theorem sortByAddr_sorted (l : List Host) : (sortByAddr l).Pairwise (fun a b => a.addr ≤ b.addr) := by
+  induction l with
+  | nil => exact List.Pairwise.nil
+  | cons x t ih => exact insertByAddr_sorted x _ ih
 
 theorem sortByAddr_strict (l : List Host) (hnd : (l.map (·.addr)).Nodup) : StrictSorted (sortByAddr l) := by
-  have hsorted : (sortByAddr l).Pairwise (fun a b => decide (a.addr ≤ b.addr) = true) := by
-    apply List.pairwise_mergeSort
-    · intro a b c h1 h2
-      simp only [decide_eq_true_eq] at h1 h2 ⊢
-      exact String.le_trans h1 h2
-    · intro a b
-      simp only [Bool.or_eq_true, decide_eq_true_eq]
-      exact String.le_total _ _
+  have hsorted := sortByAddr_sorted l
   have hnd' : ((sortByAddr l).map (·.addr)).Nodup := ((sortByAddr_perm l).map _).nodup_iff.mpr hnd
   unfold StrictSorted
   generalize sortByAddr l = s at hsorted hnd'
@@ -327,7 +369,7 @@ theorem sortByAddr_strict (l : List Host) (hnd : (l.map (·.addr)).Nodup) : Stri
     simp only [List.map_cons, List.nodup_cons] at hnd'
     refine ⟨?_, ih hsorted.2 hnd'.2⟩
     intro y hy
-    have hle : x.addr ≤ y.addr := by simpa using hsorted.1 y hy
+    have hle : x.addr ≤ y.addr := hsorted.1 y hy
     have hne : x.addr ≠ y.addr := fun e => hnd'.1 (by rw [e]; exact List.mem_map_of_mem hy)
     rcases Std.le_iff_lt_or_eq.mp hle with h | h
     · exact h
@@ -529,8 +571,8 @@ theorem inv_step {o : Oracle} {s : State} (hI : Inv o s) (op : Op) : Inv o (step
     simp only [step]
     apply inv_updateCluster hI
     cases hc : s.clusters name with
-    | none => simp
-    | some oc => exact (hI.c_some name oc hc).2
+    | none => simp [inheritHosts]
+    | some oc => simpa [inheritHosts] using (hI.c_some name oc hc).2
   | addOrUpdateClusterAndHost name tag cfgHosts hosts =>
     simp only [step]
     exact inv_updateCluster hI _ _ _ _ (replaceHosts_nodup _ _)
@@ -556,5 +598,423 @@ theorem inv_run (o : Oracle) (ops : List Op) : Inv o (run o ops) := inv_runFrom 
 
 theorem run_append (o : Oracle) (ops : List Op) (op : Op) : run o (ops ++ [op]) = (step o (run o ops) op).1 := by
   simp [run, List.foldl_append]
+
+/-! ## what single operations do to the cluster side -/
+
+@[simp] theorem refreshHosts_clusters (b : Bool) (s : State) (n : String) (h : List Host) :
+    (refreshHosts b s n h).clusters = s.clusters := by
+  unfold refreshHosts
+  split
+  · split <;> rfl
+  · rfl
+
+@[simp] theorem refreshHosts_wrappers (b : Bool) (s : State) (n : String) (h : List Host) :
+    (refreshHosts b s n h).wrappers = s.wrappers := by
+  unfold refreshHosts
+  split
+  · split <;> rfl
+  · rfl
+
+@[simp] theorem refreshHosts_rstore (b : Bool) (s : State) (n : String) (h : List Host) :
+    (refreshHosts b s n h).rstore = s.rstore := by
+  unfold refreshHosts
+  split
+  · split <;> rfl
+  · rfl
+
+theorem updateHosts_none {s : State} {c : String} (f : List Host → List Host) (h : s.clusters c = none) :
+    updateHosts s c f = (s, false) := by
+  simp [updateHosts, h]
+
+theorem updateHosts_some {s : State} {c : String} {lc : LiveCluster} (f : List Host → List Host) (h : s.clusters c = some lc) :
+    (updateHosts s c f).2 = true ∧ (updateHosts s c f).1.clusters c = some ⟨lc.tag, f lc.hosts⟩ ∧
+    ∀ n, n ≠ c → (updateHosts s c f).1.clusters n = s.clusters n := by
+  simp only [updateHosts, h, refreshHosts_clusters, FMap.set_same, true_and]
+  intro n hn
+  exact FMap.set_other _ _ hn
+
+theorem updateHosts_ok {s : State} {c : String} {f : List Host → List Host} (h : (updateHosts s c f).2 = true) :
+    ∃ lc, s.clusters c = some lc := by
+  cases hc : s.clusters c with
+  | none => rw [updateHosts_none f hc] at h; cases h
+  | some lc => exact ⟨lc, rfl⟩
+
+theorem updateHosts_failed {s : State} {c : String} {f : List Host → List Host} (h : (updateHosts s c f).2 = false) :
+    (updateHosts s c f).1 = s := by
+  cases hc : s.clusters c with
+  | none => rw [updateHosts_none f hc]
+  | some lc => rw [(updateHosts_some f hc).1] at h; cases h
+
+theorem updateCluster_clusters (s : State) (name : String) (tag : Nat) (cfgHosts : List Host)
+    (handler : Option LiveCluster → List Host) :
+    (updateCluster s name tag cfgHosts handler).2 = true ∧
+    (updateCluster s name tag cfgHosts handler).1.clusters name = some ⟨tag, handler (s.clusters name)⟩ := by
+  simp [updateCluster]
+
+/-- `ConvertUpdateEndpoints` on one assignment, with the regenerated shape: ONE replacement by the concatenation of all
+localities (the empty assignment included). -/
+theorem xdsAssign_eq (s : State) (c : String) (locs : List (List XHost)) :
+    xdsAssign s c locs = updateHosts s c (replaceHosts ((locs.map (·.map convHost)).flatten)) := by
+  unfold xdsAssign
+  split
+  · rename_i h
+    have : locs = [] := by simpa using h
+    subst this; rfl
+  · simp only [gen_inside, gen_after, gen_acc, Nat.lt_irrefl, if_false, Nat.zero_lt_one, if_true, Bool.true_and]
+
+theorem removeCluster_none {s : State} {n : String} (m : String) (h : s.clusters n = none) :
+    (removeCluster s m).clusters n = none := by
+  unfold removeCluster
+  split
+  · exact h
+  · by_cases e : n = m
+    · subst e; simp
+    · simp only [FMap.del_other _ e]; exact h
+
+theorem removeCluster_self (s : State) (n : String) : (removeCluster s n).clusters n = none := by
+  unfold removeCluster
+  split
+  · assumption
+  · simp
+
+theorem foldl_removeCluster_none (names : List String) {s : State} {n : String} (h : s.clusters n = none) :
+    (names.foldl removeCluster s).clusters n = none := by
+  induction names generalizing s with
+  | nil => exact h
+  | cons m r ih => exact ih (removeCluster_none m h)
+
+theorem foldl_removeCluster_gone (names : List String) (s : State) {n : String} (hn : n ∈ names) :
+    (names.foldl removeCluster s).clusters n = none := by
+  induction names generalizing s with
+  | nil => cases hn
+  | cons m r ih =>
+    simp only [List.mem_cons] at hn
+    simp only [List.foldl_cons]
+    rcases hn with rfl | hn
+    · exact foldl_removeCluster_none r (removeCluster_self s n)
+    · exact ih _ hn
+
+/-! ## the declarative address-set predicate on `NewHostSet` outputs -/
+
+theorem filter_beq_length_one {l : List String} (hnd : l.Nodup) {a : String} (ha : a ∈ l) :
+    (l.filter (· == a)).length = 1 := by
+  induction l with
+  | nil => cases ha
+  | cons x t ih =>
+    rw [List.nodup_cons] at hnd
+    simp only [List.mem_cons] at ha
+    by_cases hx : x = a
+    · subst hx
+      have : t.filter (· == x) = [] := by
+        rw [List.filter_eq_nil_iff]
+        intro y hy
+        simp only [beq_iff_eq]
+        intro e; subst e; exact hnd.1 hy
+      simp [List.filter_cons, this]
+    · have hx' : (x == a) = false := by simpa using hx
+      rcases ha with rfl | ha
+      · exact absurd rfl hx
+      · simp only [List.filter_cons, hx', Bool.false_eq_true, if_false]
+        exact ih hnd.2 ha
+
+theorem isAddrSet_dedup (l : List Host) : Spec.isAddrSet (dedup l) (Spec.addrs l) = true := by
+  unfold Spec.isAddrSet Spec.addrs
+  simp only [Bool.and_eq_true, List.all_eq_true, List.contains_iff_mem, beq_iff_eq]
+  refine ⟨⟨?_, ?_⟩, ?_⟩
+  · intro a ha
+    obtain ⟨h, hm, rfl⟩ := List.mem_map.mp ha
+    exact List.mem_map_of_mem (mem_dedup hm)
+  · intro a ha
+    exact addr_mem_dedup ha
+  · intro a ha
+    exact filter_beq_length_one (dedup_nodup l) ha
+
+theorem convHost_addrs (locs : List (List XHost)) :
+    Spec.addrs ((locs.map (·.map convHost)).flatten) = locs.flatten.map (·.addr) := by
+  unfold Spec.addrs
+  induction locs with
+  | nil => rfl
+  | cons x r ih =>
+    simp only [List.map_cons, List.flatten_cons, List.map_append, ih, List.map_map]
+    congr 1
+
+theorem zip_map_lookup {α} (f : String → α) (names : List String) {n : String} (hn : n ∈ names) :
+    (names.zip (names.map f)).lookup n = some (f n) := by
+  induction names with
+  | nil => cases hn
+  | cons m r ih =>
+    simp only [List.map_cons, List.zip_cons_cons, List.lookup_cons]
+    by_cases e : n = m
+    · subst e; simp
+    · have : (n == m) = false := by simpa using e
+      simp only [this]
+      simp only [List.mem_cons] at hn
+      rcases hn with rfl | hn
+      · exact absurd rfl e
+      · exact ih hn
+
+/-! ## absent clusters stay absent -/
+
+@[simp] theorem recordRouter_clusters (b : Bool) (s : State) (cfg : RouterCfg) : (recordRouter b s cfg).clusters = s.clusters := by
+  unfold recordRouter; split <;> rfl
+
+theorem updateHosts_keeps_absent {s : State} {n : String} (c : String) (f : List Host → List Host)
+    (h : s.clusters n = none) : (updateHosts s c f).1.clusters n = none := by
+  cases hc : s.clusters c with
+  | none => rw [updateHosts_none f hc]; exact h
+  | some lc =>
+    obtain ⟨_, h2, h3⟩ := updateHosts_some f hc
+    by_cases e : n = c
+    · subst e; rw [h] at hc; cases hc
+    · rw [h3 n e]; exact h
+
+theorem foldl_xds_keeps_absent (as : List (String × List (List XHost))) {acc : State × Bool} {n : String}
+    (h : acc.1.clusters n = none) :
+    (as.foldl (fun (acc : State × Bool) a =>
+      let r := xdsAssign acc.1 a.1 a.2
+      (r.1, acc.2 && r.2)) acc).1.clusters n = none := by
+  induction as generalizing acc with
+  | nil => exact h
+  | cons a r ih =>
+    apply ih
+    simp only [xdsAssign_eq]
+    exact updateHosts_keeps_absent _ _ h
+
+theorem step_keeps_absent (o : Oracle) {s : State} {n : String} (op : Op) (h : s.clusters n = none)
+    (hno : addsCluster n op = false) : (step o s op).1.clusters n = none := by
+  cases op with
+  | routersNil => exact h
+  | addOrUpdateRouters cfg =>
+    simp only [step]
+    split
+    · split
+      · exact h
+      · simpa using h
+    · simpa using h
+  | addRoute rname domain r =>
+    simp only [step]
+    split
+    · exact h
+    · split
+      · exact h
+      · split
+        · exact h
+        · simpa using h
+  | removeAllRoutes rname domain =>
+    simp only [step]
+    split
+    · exact h
+    · split
+      · exact h
+      · split
+        · exact h
+        · simpa using h
+  | addOrUpdateCluster m tag cfgHosts =>
+    have e : n ≠ m := by
+      intro e; subst e; simp [addsCluster] at hno
+    simp only [step, updateCluster, refreshHosts_clusters]
+    rw [FMap.set_other _ _ e]
+    split <;> exact h
+  | addOrUpdateClusterAndHost m tag cfgHosts hosts =>
+    have e : n ≠ m := by
+      intro e; subst e; simp [addsCluster] at hno
+    simp only [step, updateCluster, refreshHosts_clusters]
+    rw [FMap.set_other _ _ e]
+    split <;> exact h
+  | addClusterNil m => exact h
+  | updateHosts c hs => exact updateHosts_keeps_absent _ _ h
+  | appendHosts c hs => exact updateHosts_keeps_absent _ _ h
+  | removeHosts c as => exact updateHosts_keeps_absent _ _ h
+  | removeClusters names =>
+    simp only [step]
+    split
+    · exact foldl_removeCluster_none names h
+    · exact h
+  | xdsEndpoints as =>
+    simp only [step]
+    exact foldl_xds_keeps_absent as h
+
+theorem runFrom_keeps_absent (o : Oracle) (ops : List Op) {s : State} {n : String} (h : s.clusters n = none)
+    (hno : ∀ op ∈ ops, addsCluster n op = false) : (runFrom o s ops).clusters n = none := by
+  induction ops generalizing s with
+  | nil => exact h
+  | cons op r ih =>
+    simp only [runFrom, List.foldl_cons]
+    exact ih (step_keeps_absent o op h (hno op (by simp))) (fun op' hm => hno op' (by simp [hm]))
+
+/-! ## failed operations change nothing -/
+
+theorem step_failed_unchanged (o : Oracle) (s : State) (op : Op) (hs : single op = true)
+    (h : (step o s op).2 = false) : (step o s op).1 = s := by
+  cases op with
+  | routersNil => rfl
+  | addOrUpdateRouters cfg =>
+    simp only [step] at h ⊢
+    cases hw : s.wrappers cfg.name with
+    | none => simp [hw] at h
+    | some w =>
+      cases hb : build o cfg with
+      | none => simp [hw, hb]
+      | some t => simp [hw, hb] at h
+  | addRoute rname domain r =>
+    simp only [step] at h ⊢
+    cases hw : s.wrappers rname with
+    | none => simp [hw] at h
+    | some w =>
+      cases ht : w.routers with
+      | none => simp [hw, ht]
+      | some t =>
+        cases ha : t.addRoute o domain r with
+        | none => simp [hw, ht, ha]
+        | some p => simp [hw, ht, ha] at h
+  | removeAllRoutes rname domain =>
+    simp only [step] at h ⊢
+    cases hw : s.wrappers rname with
+    | none => simp [hw] at h
+    | some w =>
+      cases ht : w.routers with
+      | none => simp [hw, ht]
+      | some t =>
+        cases ha : t.removeAll o domain with
+        | none => simp [hw, ht, ha]
+        | some p => simp [hw, ht, ha] at h
+  | addOrUpdateCluster m tag cfgHosts => simp [step, updateCluster] at h
+  | addOrUpdateClusterAndHost m tag cfgHosts hosts => simp [step, updateCluster] at h
+  | addClusterNil m => rfl
+  | updateHosts c hs' => exact updateHosts_failed h
+  | appendHosts c hs' => exact updateHosts_failed h
+  | removeHosts c as => exact updateHosts_failed h
+  | removeClusters names =>
+    simp only [step] at h ⊢
+    split at h
+    · cases h
+    · rename_i h1; simp [h1]
+  | xdsEndpoints as =>
+    match as, hs with
+    | [], _ => simp [step] at h
+    | [a], _ =>
+      simp only [step, List.foldl_cons, List.foldl_nil, Bool.true_and, xdsAssign_eq] at h ⊢
+      exact updateHosts_failed h
+    | _ :: _ :: _, hs => simp [single] at hs
+
+/-! ## the executable predicate on model observations -/
+
+theorem clampHost_eq_eff (h : Host) : clampHost h = { h with weight := Spec.effWeight h.weight } := by
+  unfold clampHost Spec.effWeight Gen.Updates.transHostWeight Gen.Updates.maxHostWeight Gen.Updates.minHostWeight
+  congr 1
+  by_cases h1 : h.weight < 1
+  · have : h.weight = 0 := by omega
+    simp [this]
+  · by_cases h2 : h.weight > 128
+    · have e1 : ((h.weight : Int) > 128) := by omega
+      simp [h1, h2, e1]
+    · have e1 : ¬ ((h.weight : Int) > 128) := by omega
+      have e2 : ¬ ((h.weight : Int) < 1) := by omega
+      simp [h1, h2, e1, e2]
+
+theorem normalize_eq_eff (lc : LiveCluster) : normalize lc = Spec.effCluster lc := by
+  unfold normalize Spec.effCluster
+  congr 1
+  apply List.map_congr_left
+  intro h _
+  exact clampHost_eq_eff h
+
+theorem spec_coherent_on_model (o : Oracle) (ops : List Op) (rnames cnames : List String) (res : List Bool) :
+    Spec.coherent (observe o rnames cnames res (run o ops)) = true := by
+  have hR : liveRouters (run o ops) = rebuildRouters o (dump (run o ops)) := by
+    funext n
+    have hI := inv_run o ops
+    simp only [liveRouters, rebuildRouters, dump]
+    cases hw : (run o ops).wrappers n with
+    | none => simp [hI.r_none n hw]
+    | some w =>
+      obtain ⟨_, hs, hb⟩ := hI.r_some n w hw
+      simp [hs, hb]
+  have hC : ∀ n, ((run o ops).clusters n).map Spec.effCluster = rebuildClusters (dump (run o ops)) n := by
+    intro n
+    have hI := inv_run o ops
+    simp only [rebuildClusters, dump]
+    cases hc : (run o ops).clusters n with
+    | none => simp [hI.c_none n hc]
+    | some lc =>
+      obtain ⟨hs, hnd⟩ := hI.c_some n lc hc
+      simp only [hs, Option.map_some, ← normalize_eq_eff, normalize, buildCluster, Option.some.injEq, LiveCluster.mk.injEq, true_and]
+      exact (dedup_id _ (by rw [map_clamp_addr]; exact hnd)).symm
+  unfold Spec.coherent observe
+  simp only [Bool.and_eq_true, beq_iff_eq, hR, List.map_map, true_and]
+  apply List.map_congr_left
+  intro n _
+  exact hC n
+
+theorem spec_lastOp_on_model (o : Oracle) (s : State) (hI : Inv o s) (op : Op) (rnames cnames : List String) (res : List Bool)
+    (hcov : ∀ n ∈ clusterNames op, n ∈ cnames) :
+    Spec.lastOp op (step o s op).2
+      (fun n => ((cnames.zip (observe o rnames cnames res (step o s op).1).liveC).lookup n).join) = true := by
+  have hlook : ∀ n ∈ clusterNames op,
+      ((cnames.zip (observe o rnames cnames res (step o s op).1).liveC).lookup n).join = (step o s op).1.clusters n := by
+    intro n hn
+    simp only [observe]
+    rw [zip_map_lookup _ cnames (hcov n hn)]
+    rfl
+  unfold Spec.lastOp
+  cases hok : (step o s op).2 with
+  | false => rfl
+  | true =>
+    simp only [Bool.not_true, Bool.false_eq_true, if_false]
+    cases op with
+    | routersNil => rfl
+    | addOrUpdateRouters cfg => rfl
+    | addRoute rname domain r => rfl
+    | removeAllRoutes rname domain => rfl
+    | addClusterNil m => rfl
+    | appendHosts c hs => rfl
+    | addOrUpdateCluster c tag cfgHosts =>
+      simp only [hlook c (by simp [clusterNames])]
+      simp only [step, (updateCluster_clusters s c tag cfgHosts inheritHosts).2, beq_self_eq_true]
+    | addOrUpdateClusterAndHost c tag cfgHosts hosts =>
+      simp only [hlook c (by simp [clusterNames])]
+      simp only [step, (updateCluster_clusters s c tag cfgHosts _).2, beq_self_eq_true, Bool.true_and, replaceHosts]
+      exact isAddrSet_dedup hosts
+    | updateHosts c hs =>
+      simp only [hlook c (by simp [clusterNames])]
+      obtain ⟨lc, hc⟩ := updateHosts_ok (f := replaceHosts hs) hok
+      have := (updateHosts_some (replaceHosts hs) hc).2.1
+      simp only [step, this, replaceHosts]
+      exact isAddrSet_dedup hs
+    | removeHosts c as =>
+      simp only [hlook c (by simp [clusterNames])]
+      obtain ⟨lc, hc⟩ := updateHosts_ok (f := removeHosts as) hok
+      have := (updateHosts_some (removeHosts as) hc).2.1
+      simp only [step, this]
+      rw [removeHosts_eq as lc.hosts (hI.c_some c lc hc).2]
+      simp only [Spec.addrs, List.all_eq_true, List.mem_map, Bool.not_eq_true', forall_exists_index, and_imp]
+      intro a h hm e
+      subst e
+      have := (List.mem_filter.mp hm).2
+      simpa using this
+    | removeClusters names =>
+      simp only [List.all_eq_true]
+      intro n hn
+      rw [hlook n (by simpa [clusterNames] using hn)]
+      simp only [step] at hok ⊢
+      split
+      · simp [foldl_removeCluster_gone names s hn]
+      · rename_i h; simp [h] at hok
+    | xdsEndpoints as =>
+      match as with
+      | [] => rfl
+      | _ :: _ :: _ => rfl
+      | [(c, locs)] =>
+        simp only [hlook c (by simp [clusterNames])]
+        have hstep : step o s (.xdsEndpoints [(c, locs)]) =
+            ((updateHosts s c (replaceHosts ((locs.map (·.map convHost)).flatten))).1,
+             (updateHosts s c (replaceHosts ((locs.map (·.map convHost)).flatten))).2) := by
+          simp [step, xdsAssign_eq]
+        rw [hstep] at hok ⊢
+        obtain ⟨lc, hc⟩ := updateHosts_ok hok
+        have := (updateHosts_some (replaceHosts ((locs.map (·.map convHost)).flatten)) hc).2.1
+        simp only [this, replaceHosts]
+        rw [← convHost_addrs]
+        exact isAddrSet_dedup _
 
 end MosnVerif.Model.Updates
